@@ -134,9 +134,34 @@ func runC07(r *Run) {
 	failedConditionWrites(r, "C07.R5")
 	_, reach := edsReconcile(r)
 	c := &c07Ctx{r: r, site: site, reach: reach}
+	// the update function: the callee of the decision's caller under which status.activeReplicaSet is
+	// stored (by itself or by a helper that receives the status)
+	var storeFns []*ssa.Function
 	for _, fn := range sortedFuncs(reach) {
-		if len(storesTo(fn, "Status", "ActiveReplicaSet")) > 0 {
-			c.upd = fn
+		if len(storesToFieldOf(fn, pkgAPI, "ExtendedDaemonSetStatus", "ActiveReplicaSet")) > 0 {
+			storeFns = append(storeFns, fn)
+		}
+	}
+	for _, ci := range callsIn(site.caller) {
+		g := staticCallee(ci.Common())
+		if g == nil || !r.Prog.IsRuleSite(g) || g == site.decision {
+			continue
+		}
+		within := map[*ssa.Function]bool{}
+		for _, h := range r.Prog.calleesWithin(g, 3) {
+			within[h] = true
+		}
+		for _, sf := range storeFns {
+			if within[sf] {
+				c.upd = g
+			}
+		}
+	}
+	if c.upd == nil {
+		for _, sf := range storeFns {
+			if sf == site.caller {
+				c.upd = sf
+			}
 		}
 	}
 	if c.upd == nil {
@@ -960,7 +985,7 @@ func c07DeletionPredicate(c *c07Ctx, g *ssa.Function) {
 			now = p
 		}
 	}
-	paths, _, ok := funcPaths(g, 5000)
+	paths, k, ok := funcPaths(g, 5000)
 	r.paths += len(paths)
 	if !ok || ers == nil || now == nil {
 		r.Undecided("C07.R3", "deletion predicate", pos, gname, "path cap exceeded or unexpected signature")
@@ -974,19 +999,32 @@ func c07DeletionPredicate(c *c07Ctx, g *ssa.Function) {
 		}
 	}
 	counters := []string{"Desired", "Current", "Ready", "Available"}
-	counterOf := func(v ssa.Value) string {
-		root, okR := singleRootWithSuffix(stripConv(v), "Status")
-		_ = root
-		_ = okR
-		ps := pathsOf(stripConv(v))
+	// matchers read a value in the environment of the helper it was found in (the predicate may
+	// delegate to helpers that receive &ers.Status, now, …)
+	counterOf := func(v ssa.Value, env *envT) string {
+		ps := pathsOfE(v, env)
 		if len(ps) != 1 || ps[0].root != ssa.Value(ers) || len(ps[0].fields) != 2 || ps[0].fields[0] != "Status" {
 			return ""
 		}
 		return ps[0].fields[1]
 	}
-	statusOfErs := func(v ssa.Value) bool {
-		ps := pathsOf(stripConv(v))
+	statusOfErs := func(v ssa.Value, env *envT) bool {
+		ps := pathsOfE(v, env)
 		return len(ps) == 1 && ps[0].root == ssa.Value(ers) && len(ps[0].fields) == 1 && ps[0].fields[0] == "Status"
+	}
+	isNow := func(v ssa.Value, env *envT) bool {
+		sv, _ := stripConvE(v, env)
+		return sv == ssa.Value(now)
+	}
+	stop := func(h *ssa.Function) bool {
+		return token.IsExported(h.Name()) || (h.Pkg != nil && h.Pkg.Pkg.Path() == pkgERSCond)
+	}
+	descAlt := func(alt []xfact) string {
+		fs := factSet{}
+		for _, xf := range alt {
+			fs[fkey(xf.Fact)] = xf.Fact
+		}
+		return shortSet(fs)
 	}
 	var condTypes []string
 	zeroOK, zeroDetail := true, ""
@@ -995,125 +1033,137 @@ func c07DeletionPredicate(c *c07Ctx, g *ssa.Function) {
 	for _, p := range paths {
 		ret := returnOf(p.Blocks[len(p.Blocks)-1])
 		res := p.Resolve(ret.Results[0])
-		if b, isC := constBool(res); isC && !b {
-			continue
-		}
-		if p.Has(true, func(v ssa.Value, _ string) bool { return isNilCompareOf(v, isParam(ers)) }) {
-			continue // no replica set: nothing to keep
-		}
-		nTrue++
-		// counters
-		zero := map[string]bool{}
-		if bo, isB := res.(*ssa.BinOp); isB && bo.Op == token.EQL {
-			var sum ssa.Value
-			if z, okz := constInt(bo.Y); okz && z == 0 {
-				sum = bo.X
-			} else if z, okz := constInt(bo.X); okz && z == 0 {
-				sum = bo.Y
-			}
-			var leaves func(v ssa.Value)
-			leaves = func(v ssa.Value) {
-				if v == nil {
-					return
-				}
-				if b2, isB2 := v.(*ssa.BinOp); isB2 && b2.Op == token.ADD {
-					leaves(b2.X)
-					leaves(b2.Y)
-					return
-				}
-				if cn := counterOf(v); cn != "" {
-					zero[cn] = true
-				}
-			}
-			leaves(sum)
-		} else if b, isC := constBool(res); !isC || !b {
-			zeroOK, zeroDetail = false, "the result is neither a constant nor a sum-is-zero comparison: "+res.String()
-		}
-		for _, f := range p.Facts {
-			if !f.Pol {
+		facts := factList(p.Facts)
+		if b, isC := constBool(res); isC {
+			if !b {
 				continue
 			}
-			if x, y, okE := eqOperands(f.V); okE {
+		} else {
+			facts = append(facts, k.normCond(res, true)...) // the result expression holds when true is returned
+		}
+		for _, alt := range expandAlternatives(r.Prog, facts, nil, 0, stop) {
+			ersNil := false
+			for _, xf := range alt {
+				if xf.Pol && isNilCompareOf(xf.V, func(x ssa.Value) bool { sv, _ := stripConvE(x, xf.env); return sv == ssa.Value(ers) }) {
+					ersNil = true
+				}
+			}
+			if ersNil {
+				continue // no replica set: nothing to keep
+			}
+			nTrue++
+			// counters: facts x == 0 where x is a counter or a sum of counters
+			zero := map[string]bool{}
+			for _, xf := range alt {
+				if !xf.Pol {
+					continue
+				}
+				x, y, okE := eqOperands(xf.V)
+				if !okE {
+					continue
+				}
+				var sum ssa.Value
 				if z, okz := constInt(y); okz && z == 0 {
-					if cn := counterOf(x); cn != "" {
+					sum = x
+				} else if z, okz := constInt(x); okz && z == 0 {
+					sum = y
+				}
+				var leaves func(v ssa.Value)
+				leaves = func(v ssa.Value) {
+					if v == nil {
+						return
+					}
+					if b2, isB2 := v.(*ssa.BinOp); isB2 && b2.Op == token.ADD {
+						leaves(b2.X)
+						leaves(b2.Y)
+						return
+					}
+					if cn := counterOf(v, xf.env); cn != "" {
 						zero[cn] = true
 					}
 				}
-				if z, okz := constInt(x); okz && z == 0 {
-					if cn := counterOf(y); cn != "" {
-						zero[cn] = true
+				leaves(sum)
+			}
+			var lacking []string
+			for _, cn := range counters {
+				if !zero[cn] {
+					lacking = append(lacking, cn)
+				}
+			}
+			if len(lacking) > 0 && zeroOK {
+				zeroOK, zeroDetail = false, "the predicate can be true without requiring Status."+strings.Join(lacking, ", Status.")+" == 0: "+descAlt(alt)
+			}
+			// retention: what is known about the failure condition of this replica set
+			var failedT tri
+			byEnv := map[*envT][]Fact{}
+			var envs []*envT
+			for _, xf := range alt {
+				if _, seen := byEnv[xf.env]; !seen {
+					envs = append(envs, xf.env)
+				}
+				byEnv[xf.env] = append(byEnv[xf.env], xf.Fact)
+			}
+			for _, env := range envs {
+				for _, a := range condTrueAtoms(byEnv[env]) {
+					if !statusOfErs(a.call.Call.Args[0], env) {
+						continue
+					}
+					failedT = a.val
+					if a.typ != "" {
+						condTypes = append(condTypes, a.typ)
 					}
 				}
 			}
-		}
-		var lacking []string
-		for _, cn := range counters {
-			if !zero[cn] {
-				lacking = append(lacking, cn)
-			}
-		}
-		if len(lacking) > 0 && zeroOK {
-			zeroOK, zeroDetail = false, "a path can return true without requiring Status."+strings.Join(lacking, ", Status.")+" == 0"
-		}
-		// retention
-		var failedT tri
-		for _, a := range condTrueAtoms(factList(p.Facts)) {
-			if !statusOfErs(a.call.Call.Args[0]) {
-				continue
-			}
-			failedT = a.val
-			if a.typ != "" {
-				condTypes = append(condTypes, a.typ)
-			}
-		}
-		switch failedT {
-		case triFalse:
-		case triUnknown:
-			if retOK {
-				retOK, retDetail = false, "a path can return true without consulting the replica set's Canary-Failed condition: "+shortFacts(p)
-			}
-		case triTrue:
-			kept := false
-			for _, f := range p.Facts {
-				call, isC := f.V.(*ssa.Call)
-				if !isC || len(call.Call.Args) != 2 {
-					continue
+			switch failedT {
+			case triFalse:
+			case triUnknown:
+				if retOK {
+					retOK, retDetail = false, "the predicate can be true without consulting the replica set's Canary-Failed condition: "+descAlt(alt)
 				}
-				var deadline ssa.Value
-				switch calleeName(&call.Call) {
-				case "(time.Time).Before": // now.Before(deadline) == false
-					if stripConv(call.Call.Args[0]) == ssa.Value(now) && !f.Pol {
-						deadline = call.Call.Args[1]
+			case triTrue:
+				kept := false
+				for _, xf := range alt {
+					call, isC := xf.V.(*ssa.Call)
+					if !isC || len(call.Call.Args) != 2 || xf.Pol {
+						continue
 					}
-				case "(time.Time).After": // deadline.After(now) == false
-					if stripConv(call.Call.Args[1]) == ssa.Value(now) && !f.Pol {
-						deadline = call.Call.Args[0]
+					var deadline ssa.Value
+					switch calleeName(&call.Call) {
+					case "(time.Time).Before": // now.Before(deadline) == false
+						if isNow(call.Call.Args[0], xf.env) {
+							deadline = call.Call.Args[1]
+						}
+					case "(time.Time).After": // deadline.After(now) == false
+						if isNow(call.Call.Args[1], xf.env) {
+							deadline = call.Call.Args[0]
+						}
+					}
+					if deadline == nil {
+						continue
+					}
+					dv, denv := stripConvE(deadline, xf.env)
+					add, isAdd := dv.(*ssa.Call)
+					if !isAdd || len(add.Call.Args) != 2 {
+						continue
+					}
+					an := calleeName(&add.Call)
+					if an != "(time.Time).Add" && !strings.HasSuffix(an, "v1.Time).Add") {
+						continue
+					}
+					d, okD := constInt(add.Call.Args[1])
+					if !okD || d < int64(2*60*1e9) {
+						if retOK {
+							retOK, retDetail = false, fmt.Sprintf("the retention added to the failure time is %v ns, less than 2 minutes", constant.MakeInt64(d))
+						}
+						continue
+					}
+					if c07IsFailureTime(add.Call.Args[0], ers, denv) {
+						kept = true
 					}
 				}
-				if deadline == nil {
-					continue
+				if !kept && retOK {
+					retOK, retDetail = false, "with the Canary-Failed condition true the predicate can be true without the fact ¬now.Before(LastTransitionTime + d), d ≥ 2 min: "+descAlt(alt)
 				}
-				add, isAdd := stripConv(deadline).(*ssa.Call)
-				if !isAdd || len(add.Call.Args) != 2 {
-					continue
-				}
-				an := calleeName(&add.Call)
-				if an != "(time.Time).Add" && !strings.HasSuffix(an, "v1.Time).Add") {
-					continue
-				}
-				d, okD := constInt(add.Call.Args[1])
-				if !okD || d < int64(2*60*1e9) {
-					if retOK {
-						retOK, retDetail = false, fmt.Sprintf("the retention added to the failure time is %v ns, less than 2 minutes", constant.MakeInt64(d))
-					}
-					continue
-				}
-				if c07IsFailureTime(add.Call.Args[0], ers) {
-					kept = true
-				}
-			}
-			if !kept && retOK {
-				retOK, retDetail = false, "a path with the Canary-Failed condition true can return true without the fact ¬now.Before(LastTransitionTime + d), d ≥ 2 min: "+shortFacts(p)
 			}
 		}
 	}
@@ -1134,8 +1184,8 @@ func c07DeletionPredicate(c *c07Ctx, g *ssa.Function) {
 // c07IsFailureTime: v is <cond>.LastTransitionTime(.Time) where <cond> is the Canary-Failed
 // condition of ers.Status: Conditions[GetIndexForConditionType(&ers.Status, T)] or
 // GetExtendedDaemonSetReplicaSetStatusCondition(&ers.Status, T).
-func c07IsFailureTime(v ssa.Value, ers *ssa.Parameter) bool {
-	ps := pathsOf(stripConv(v))
+func c07IsFailureTime(v ssa.Value, ers *ssa.Parameter, env *envT) bool {
+	ps := pathsOfE(v, env)
 	if len(ps) != 1 {
 		return false
 	}
@@ -1147,8 +1197,9 @@ func c07IsFailureTime(v ssa.Value, ers *ssa.Parameter) bool {
 	if len(f) != 1 || f[0] != "LastTransitionTime" {
 		return false
 	}
+	// the root lives in the function where the value was found: its own arguments are read in env
 	statusOfErs := func(x ssa.Value) bool {
-		q := pathsOf(stripConv(x))
+		q := pathsOfE(x, env)
 		return len(q) == 1 && q[0].root == ssa.Value(ers) && len(q[0].fields) >= 1 && q[0].fields[0] == "Status"
 	}
 	switch root := p.root.(type) {
@@ -1157,7 +1208,7 @@ func c07IsFailureTime(v ssa.Value, ers *ssa.Parameter) bool {
 		if !isC || calleeName(&idx.Call) != pkgERSCond+".GetIndexForConditionType" || !statusOfErs(idx.Call.Args[0]) {
 			return false
 		}
-		q := pathsOf(root.X)
+		q := pathsOfE(root.X, env)
 		return len(q) == 1 && q[0].root == ssa.Value(ers) && len(q[0].fields) == 2 && q[0].fields[0] == "Status" && q[0].fields[1] == "Conditions"
 	case *ssa.Call:
 		return calleeName(&root.Call) == pkgERSCond+".GetExtendedDaemonSetReplicaSetStatusCondition" && statusOfErs(root.Call.Args[0])
